@@ -1,5 +1,5 @@
 (* vec_driver.ml — model and oracle side of the fixed_vector cluster (C06, C07).
-   Case line:  <variant> <op> <op> ...      variant in C M T U P (P = plain std::int64_t, trivially copyable; element type of the C++ side; the model ignores it,
+   Case line:  <variant> <op> <op> ...      variant in C M T U P (P = plain std::int64_t, trivially copyable; S = std::string, Q = std::unique_ptr<int>; element type of the C++ side; the model ignores it,
    except that copy-requiring operations are refused for the move-only variants and fault plans for the
    non-throwing ones, exactly as the C++ driver does).
    op = name,arg,...[!k]   lists are digit strings, "_" = empty list, !k = the k-th element assignment throws.
@@ -23,8 +23,13 @@ let parse_op (w : string) : pop =
   let w, plan = match String.index_opt w '!' with
     | Some i -> String.sub w 0 i, Some (int_of_string (String.sub w (i+1) (String.length w - i - 1)))
     | None -> w, None in
+  (* ~f: the overload / value category / argument form the C++ driver uses; the same operation for the model *)
+  let w = match String.index_opt w '~' with
+    | Some i -> let f = int_of_string (String.sub w (i+1) (String.length w - i - 1)) in
+                if f < 0 || f > 9 then failwith "form" else String.sub w 0 i
+    | None -> w in
   let f = String.split_on_char ',' w in
-  let n s = let v = int_of_string s in if v < 0 || v > 64 then failwith "range" else i2n v in
+  let n s = let v = int_of_string s in if v < 0 || v > 1000 then failwith "range" else i2n v in
   let o = match f with
     | ["n"; i; c] -> ONew (n i, n c)
     (* fixed_vector(c, iterable): std::vector / std::list / std::array / initializer_list / another fixed_vector *)
@@ -35,6 +40,7 @@ let parse_op (w : string) : pop =
     | ["mv"; i; j] -> OMove (n i, n j)
     | ["as"; i; j] -> OAssign (n i, n j)
     | ["ma"; i; j] -> OMoveAssign (n i, n j)
+    | ["sw"; i; j] -> OMoveAssign (n i, n j)   (* std::swap(pool[i], pool[j]); recognised by its name, see swap_steps *)
     | ["la"; i; xs] -> OListAssign (n i, nats xs)
     | ["at"; i; k] -> OAt (n i, n k)
     | ["get"; i; k] -> OGet (n i, n k)
@@ -127,13 +133,17 @@ let render_abs ((c, l) : aobj) : string =
     e (str_of_chars (List.rev_map ch_slot l)) e
     (if s > 0 then str_of_chars [ch_slot (List.hd l); ch_slot (List.nth l (s - 1))] else "-")
 
-let copyable v = (v = "C" || v = "T" || v = "P")
+let copyable v = (v = "C" || v = "T" || v = "P" || v = "S")
+(* std::swap(a, b) is  T tmp(std::move(a)); a = std::move(b); b = std::move(tmp);  — run as these three operations with
+   the temporary in a hidden extra pool slot (index npool, not addressable by cases), which is destroyed afterwards *)
+let swap_steps i j = [OMove (i2n npool, i); OMoveAssign (i, j); OMoveAssign (j, i2n npool); ODestroy (i2n npool)]
 let throwing v = (v = "T" || v = "U")
 
 (* static refusal of a step, identical on the three sides *)
 let refused variant (p : pop) : bool =
   (needs_copy p.o && not (copyable variant)) || (p.plan <> None && not (throwing variant))
   || List.exists (fun i -> i >= npool) (writes p.o @ uses p.o)
+  || (p.name = "sw" && p.plan <> None)
   || list_len p.o > 5
   || (match p.o with ONewFrom (_, _, xs) -> (p.name = "nfi" && List.length xs > 5) || (p.name = "nfa" && List.length xs > 6) | _ -> false)
   || (match p.o with OGet (_, k) -> n2i k > 5 | _ -> false)
@@ -145,9 +155,9 @@ let bad_position (p : pop) (capof : int -> int option) : bool =
 let model (ws : string list) : string =
   match ws with
   | [] -> "BADCASE"
-  | variant :: ops when List.mem variant ["C"; "M"; "T"; "U"; "P"] ->
+  | variant :: ops when List.mem variant ["C"; "M"; "T"; "U"; "P"; "S"; "Q"] ->
     (try
-      let pool = ref (empty_pool (i2n npool)) in
+      let pool = ref (empty_pool (i2n (npool + 1))) in
       let mf = Array.make npool false in
       let out = Buffer.create 256 in
       List.iteri (fun n w ->
@@ -155,8 +165,18 @@ let model (ws : string list) : string =
         if n > 0 then Buffer.add_char out ' ';
         let capof i = match pget !pool (i2n i) with Some st -> Some (n2i st.cap) | None -> None in
         if refused variant p then Buffer.add_string out "NA"
-        else if List.exists (fun i -> mf.(i)) (uses p.o) then Buffer.add_string out "K"
+        else if List.exists (fun i -> mf.(i)) (uses p.o @ (if p.name = "sw" then writes p.o else [])) then Buffer.add_string out "K"
         else if bad_position p capof then Buffer.add_string out "NA"
+        else if p.name = "sw" then begin
+          (match p.o with
+           | OMoveAssign (i, j) when n2i i <> n2i j && pget !pool i <> None && pget !pool j <> None ->
+               List.iter (fun o -> pool := fst (pstep None o !pool)) (swap_steps i j);
+               Buffer.add_string out "D";
+               List.iter (fun k ->
+                 Buffer.add_string out (Printf.sprintf ":%d=%s" k (match pget !pool (i2n k) with None -> "X" | Some st -> render_fv st)))
+                 (List.sort_uniq compare [n2i i; n2i j])
+           | _ -> Buffer.add_string out "S")
+        end
         else begin
           let (pool', r) = pstep (match p.plan with Some k -> Some (i2n k) | None -> None) p.o !pool in
           pool := pool';
@@ -200,13 +220,13 @@ let parse_state (s : string) : aobj option =
 
 let oracle (ws : string list) (obs : string) : bool =
   match ws with
-  | variant :: ops when List.mem variant ["C"; "M"; "T"; "U"; "P"] ->
+  | variant :: ops when List.mem variant ["C"; "M"; "T"; "U"; "P"; "S"; "Q"] ->
     let toks = words obs in
     (* the plug-in's normalize() prefixes a summary word k=...; it carries no information of its own *)
     let toks = match toks with t :: r when String.length t >= 2 && String.sub t 0 2 = "k=" -> r | _ -> toks in
     if ops = [] then toks = ["-"] else
     if List.length toks <> List.length ops then false else begin
-      let pool = ref (repeat None (i2n npool) : apool) in
+      let pool = ref (repeat None (i2n (npool + 1)) : apool) in
       let mf = Array.make npool false in
       (* "no never-filled slot became visible": value-initialised elements (shown as 0) may not multiply, except by the one
          an argument-less emplace inserts *)
@@ -216,8 +236,17 @@ let oracle (ws : string list) (obs : string) : bool =
         let p = parse_op w in
         let capof i = match aget !pool (i2n i) with Some (c, _) -> Some (n2i c) | None -> None in
         if refused variant p then tok = "NA"
-        else if List.exists (fun i -> mf.(i)) (uses p.o) then tok = "K"
+        else if List.exists (fun i -> mf.(i)) (uses p.o @ (if p.name = "sw" then writes p.o else [])) then tok = "K"
         else if bad_position p capof then tok = "NA"
+        else if p.name = "sw" then begin
+          match p.o with
+          | OMoveAssign (i, j) when n2i i <> n2i j && aget !pool i <> None && aget !pool j <> None ->
+              List.iter (fun o -> pool := fst (sstep o !pool)) (swap_steps i j);
+              tok = "D" ^ String.concat "" (List.map (fun k ->
+                Printf.sprintf ":%d=%s" k (match aget !pool (i2n k) with None -> "X" | Some a -> render_abs a))
+                (List.sort_uniq compare [n2i i; n2i j]))
+          | _ -> tok = "S"
+        end
         else begin
           let before = !pool in
           let (pool', r) = sstep p.o before in
